@@ -11,7 +11,11 @@ virtual-time loop, instrumented from outside (nothing in /repo is changed):
   own callbacks/tasks, `env` for what the explorer injected.
 
 At every quiescent point (nothing runnable at the current virtual instant)
-the `chooser` picks the next environment event.  The list of choices made is
+the `chooser` picks the next environment event: start a caller, deliver /
+drop the gateway's next report, deliver only its first bytes and go silent
+for good (`trunc`, serial), an unsolicited report, fire the next timer, lose
+the HID device (EOF | read error | failing write), bring it back, call
+connect() again, cancel a caller.  The list of choices made is
 the *schedule*; replaying the same schedule reproduces the run exactly.
 """
 import asyncio
@@ -402,8 +406,7 @@ class Sim:
                 ch.append(("drop",))
         if b.get("noise", 0) > 0 and (not self.is_hid or self.hid_fd_open()):
             ch.append(("noise",))
-        if (b.get("trunc", 0) > 0 and not self.is_hid and self.drv.is_connected
-                and any(c.started for c in self.callers)):
+        if b.get("trunc", 0) > 0 and not self.is_hid and self.drv.is_connected:
             # the gateway goes silent PART-WAY THROUGH a report (cable pulled / power lost while it was transmitting):
             # only the first k bytes of the next report (or, when it owes none, of an unsolicited one - a stray start
             # byte) reach the driver, nothing ever follows
